@@ -229,7 +229,11 @@ func init() {
 			p.NAssetsMin = 2
 			return tierSteps(p, tier)
 		},
-		Oracles: func() []Oracle { return []Oracle{OracleC14{}} },
+		Oracles: func() []Oracle {
+			// "before its reward start time an asset carries no voting power": C10's target oracle
+			// (which excludes warm-up assets) runs as a sub-check
+			return []Oracle{OracleC14{}, Relabel{OracleC10{}, "C14", "voting-power:"}}
+		},
 		NonTrivial: func(x *Exec) bool {
 			return x.Has("c14:multi-interval-decay") || x.Has("c14:several-assets-decay-in-one-block")
 		},
